@@ -369,6 +369,18 @@ def c20_f(ctx: Ctx):
                 out.append(ctx.viol(R, f, ftm[0], f"the v1 state point cache is moved to {tgt!r} but the project reads {cache!r}"))
         else:
             out.append(ctx.inc(R, f, ftm[0], "files_to_move does not fold"))
+    # every legacy file is looked at on its own: the loop that moves them does not stop at the first one that is absent
+    for lp in [n for n in body_nodes(f) if isinstance(n, (ast.For, ast.While))]:
+        moves = [c for st in lp.body for c in walk_no_nested(st) if isinstance(c, ast.Call) and common.ext_name(ctx, f, c) in ("os.replace", "os.rename", "shutil.move")]
+        if not moves:
+            continue
+        stops = [x for st in lp.body for x in walk_no_nested(st) if isinstance(x, (ast.Break, ast.Return))]
+        kk = f.qual + "|every-legacy-file-considered"
+        if stops:
+            out.append(ctx.viol(R, f, stops[0], f"the loop that moves the legacy files ends at line {stops[0].lineno} as soon as one of them is missing: files listed after it (the state point "
+                                "cache when there is no shell history) stay in the project root, where the migrated project no longer reads them", construct=kk))
+        else:
+            out.append(ctx.ok(R, f, lp, "each legacy file is moved (or skipped) independently of the others", construct=kk))
     # config target: _get_project_config_fn(root)
     v2 = [n for n in body_nodes(f) if isinstance(n, ast.Assign) and len(n.targets) == 1 and isinstance(n.targets[0], ast.Name) and isinstance(n.value, ast.Call)
           and "signac._config:_get_project_config_fn" in common.targets_of(ctx, f, n.value)]
